@@ -36,6 +36,11 @@ def pairs(payload):
     for a, b in itertools.product(core, repeat=2):
         out += [(PP.NotPredicate(a), PP.NotPredicate(b)), (PP.NotPredicate(a), b), (a, PP.NotPredicate(b)),
                 (PP.NotPredicate(PP.AndPredicate(a, b)), PP.NotPredicate(a)), (a, PP.NotPredicate(PP.AndPredicate(a, b)))]
+    # quantified antecedents / consequents (the empty collection separates all from any)
+    from predicate.standard_predicates import all_p, any_p
+    for a, b in itertools.product(core[:7], repeat=2):
+        out += [(all_p(a), all_p(b)), (any_p(a), any_p(b)), (all_p(a), any_p(b)), (any_p(a), all_p(b)), (all_p(a), PP.NotPredicate(any_p(b))),
+                (PP.AndPredicate(all_p(a), any_p(b)), any_p(a))]
     return out
 
 
@@ -61,7 +66,7 @@ def correspondence(payload):
             "mismatches": mism[:20]}
 
 
-VALUES = gen.SCALAR_VALUES + [set(), {1}, {1, 2}, {1, 2, 3}, {2, 3}, {0}, [1]]
+VALUES = gen.SCALAR_VALUES + [set(), {1}, {1, 2}, {1, 2, 3}, {2, 3}, {0}, [1], [], (), [2, 3], [0], (3, 4), [1, 5], [2.5]]
 
 
 def entails_exact(p, q):
@@ -93,14 +98,16 @@ def search(payload):
             continue
         ex = entails_exact(p, q)
         if ex is True and not r:
-            fails.append({"p": repr(p), "q": repr(q), "kind": "incomplete on an understood pair: entailment holds but implies() is False"})
+            fails.append({"p": repr(p), "q": repr(q), "p_structure": skey(p), "q_structure": skey(q),
+                          "kind": "incomplete on an understood pair: entailment holds but implies() is False"})
         if r:
             for x in VALUES:
                 if not (atoms_defined(p, x) and atoms_defined(q, x)):
                     continue
                 n += 1
                 if call(p, x) == ("ok", True) and call(q, x) != ("ok", True):
-                    fails.append({"p": repr(p), "q": repr(q), "x": repr(x), "kind": "unsound: implies() is True but x satisfies p and not q"})
+                    fails.append({"p": repr(p), "q": repr(q), "p_structure": skey(p), "q_structure": skey(q), "x": repr(x),
+                                  "kind": "unsound: implies() is True but x satisfies p and not q"})
                     break
         if len(fails) >= 5:
             break
